@@ -2409,3 +2409,111 @@ def rejected_then_other_schema_scenarios(chk: Check):
                       and (not ident or obs.get('reopen_lookup') == [None, None, 3, 4]))
                 chk.count('rejected_then_other_schema_scenarios')
                 _report(chk, name, ok, obs)
+
+
+def retry_after_interrupted_merge_scenarios(chk: Check, rng, n):
+    """C10: a merge is interrupted while it moves its inputs (an OSError in front of one of the os.rename calls, after
+    at least one input was moved); then a merge under the SAME output name is attempted (a) with the inputs that are
+    still in place, (b) with those plus a file from another directory that has the name of an input already moved.
+    Oracle only, and the same whether the retry is carried out or refused:
+      (1) every trajectory ever added is readable from exactly one place: a file still where it was written, the
+          merged store (if the directory has metadata.json: through TrajectoryStore.open of the directory), or, in a
+          directory that does not announce itself as a store, one of the files lying in it;
+      (2) a directory with metadata.json lists every .nc file that lies in it, and opening it gives the concatenation
+          of the listed files;
+      (3) nothing was overwritten: as many distinct tags are readable as were added."""
+    e = Env.get()
+    TS = e.TS
+    for j in range(n):
+        variant = 'remaining-inputs' if j % 2 == 0 else 'same-named-file-from-another-directory'
+        root = chk.tmp / f'retry{j}'
+        d1, d2 = root / 'run1', root / 'run2'
+        d1.mkdir(parents=True, exist_ok=True)
+        d2.mkdir(parents=True, exist_ok=True)
+        k = rng.randint(2, 4)
+        moved_before_fault = 1 if j < 2 else rng.randint(1, k - 1)
+        ident = rng.random() < 0.5
+        out = root / 'm.aeic-store'
+        paths = [d1 / f's{i}.nc' for i in range(k)]
+        other = d2 / 's0.nc'                          # the name of the input that is moved first
+        written, t = {}, 1
+        obs = {}
+        try:
+            for p in paths + [other]:
+                rows = []
+                with TS.create(base_file=p) as ts:
+                    for _ in range(rng.randint(1, 3)):
+                        ts.add(e.mk(t, (7000 - t) if ident else None, 0, 'ok'))
+                        rows.append(t)
+                        t += 1
+                written[str(p.relative_to(root))] = rows
+            real_rename, calls = os.rename, [0]
+
+            def failing_rename(src, dst, *a, **kw):
+                if calls[0] == moved_before_fault:
+                    calls[0] += 1
+                    raise InjectedFault(f'injected failure in front of rename number {moved_before_fault + 1}')
+                calls[0] += 1
+                return real_rename(src, dst, *a, **kw)
+            os.rename = failing_rename
+            try:
+                TS.merge(output_store=out, input_stores=paths)
+                obs['first_merge'] = 'returned'
+            except InjectedFault:
+                obs['first_merge'] = 'interrupted'
+            except Exception as ex:  # noqa: BLE001
+                obs['first_merge'] = f'{type(ex).__name__}: {ex}'[:100]
+            finally:
+                os.rename = real_rename
+            gc.collect()
+            obs['in_place_after_interruption'] = [p.exists() for p in paths]
+            retry = [p for p in paths if p.exists()]
+            if variant != 'remaining-inputs':
+                retry.insert(rng.randrange(len(retry) + 1), other)
+            obs['retry_inputs'] = [str(p.relative_to(root)) for p in retry]
+            try:
+                TS.merge(output_store=out, input_stores=retry)
+                obs['retry'] = 'carried out'
+            except ValueError as ex:
+                obs['retry'] = f'refused: {ex}'[:100]
+            except Exception as ex:  # noqa: BLE001
+                obs['retry'] = f'raised {type(ex).__name__}: {ex}'[:100]
+            gc.collect()
+
+            def read(p):
+                with TS.open(base_file=p) as r_:
+                    return [tag_of(x) for x in r_]
+            places = {}
+            for p in paths + [other]:
+                if p.exists():
+                    places[str(p.relative_to(root))] = read(p)
+            if out.exists():
+                files = sorted(f.name for f in out.glob('*.nc') if f.name != '_index.nc')
+                obs['files_in_output'] = files
+                if (out / 'metadata.json').exists():
+                    with open(out / 'metadata.json') as f:
+                        listed = [s[0] for s in json.load(f)['stores']]
+                    obs['listed_in_metadata'] = listed
+                    places['<merged store>'] = read(out)
+                    obs['concatenation_of_listed'] = [x for nm in listed for x in (raw_tags(out / nm) if (out / nm).exists() else ['missing'])]
+                else:
+                    for nm in files:
+                        places[f'm.aeic-store/{nm} (no metadata.json)'] = read(out / nm)
+            obs['readable'] = places
+        except Exception as ex:  # noqa: BLE001
+            obs['error'] = f'{type(ex).__name__}: {ex}'[:160]
+        gc.collect()
+        all_tags = sorted(x for rows in written.values() for x in rows)
+        ok = 'error' not in obs and obs['first_merge'] == 'interrupted'
+        if ok:
+            seen = sorted(x for rows in obs['readable'].values() for x in rows)
+            obs['lost'] = [x for x in all_tags if x not in seen]
+            obs['more_than_once'] = sorted({x for x in seen if seen.count(x) > 1})
+            ok = seen == all_tags and len(set(seen)) == len(all_tags)                       # (1), (3)
+            if 'listed_in_metadata' in obs:                                                 # (2)
+                obs['unlisted_files'] = [f for f in obs['files_in_output'] if f not in obs['listed_in_metadata']]
+                ok = ok and sorted(obs['listed_in_metadata']) == obs['files_in_output'] \
+                    and obs['readable']['<merged store>'] == obs['concatenation_of_listed']
+        chk.count('retry_after_interrupted_merge_scenarios:' + variant)
+        _report(chk, f'merge-interrupted-after-{moved_before_fault}-of-{k}-moves:retry-same-output:{variant}:'
+                     f'{"id" if ident else "noid"}:{j}', ok, {'written': written, **obs})
